@@ -194,6 +194,16 @@ impl OligoComputer {
                 scope.spawn(move |_| {
                     loop {
                         let record = { records_arc_clone.lock().unwrap().next() };
+                        #[cfg(feature = "verif")]
+                        ktio::verif::emit(
+                            "oligo.took",
+                            [
+                                record.as_ref().map_or(ktio::verif::NONE, |r| r.n as u64),
+                                0,
+                                0,
+                                0,
+                            ],
+                        );
                         if let Some(record) = record {
                             let kvec = self.vectorise_one(&record.seq);
                             // optimise this with pre-sized string
@@ -206,11 +216,15 @@ impl OligoComputer {
                             unsafe {
                                 mm_slice.write_at(kvec_str.as_bytes(), start_pos + header_len);
                             }
+                            #[cfg(feature = "verif")]
+                            ktio::verif::emit("oligo.wrote", [record.n as u64, 0, 0, 0]);
                         } else {
                             // end of iteration
                             break;
                         }
                     }
+                    #[cfg(feature = "verif")]
+                    ktio::verif::emit("oligo.exit", [0; 4]);
                 });
             }
         });
@@ -236,6 +250,25 @@ impl OligoComputer {
             vec.iter_mut().for_each(|el| *el /= f64::max(1_f64, total));
         }
         vec
+    }
+}
+
+#[cfg(feature = "verif")]
+impl OligoComputer {
+    pub fn verif_vectorise_mmap(&self) -> Result<(), String> {
+        self.vectorise_mmap()
+    }
+
+    pub fn verif_vectorise_batch(&self) -> Result<(), String> {
+        self.vectorise_batch()
+    }
+
+    pub fn verif_vectorise_one(&self, seq: &[u8]) -> Vec<f64> {
+        self.vectorise_one(seq)
+    }
+
+    pub fn verif_get_header(&self) -> Vec<String> {
+        self.get_header()
     }
 }
 
